@@ -18,7 +18,7 @@ from props import c05_gen
 
 ID = 'C05'
 PROPERTY_FILE = 'C05/Property.v'
-LEVEL = 'proof'
+LEVEL = 'other'
 ALLOWED_AXIOMS = ()
 HEADER = 'From CF Require Import C05.Model C05.TieEnc.\nOpen Scope Z_scope.\n'
 
